@@ -405,3 +405,27 @@ def run(ck):
                   "malformed text is rejected with another exception type" % (f2.name, ty), path=chain)
     ck.require(nthrow >= 8, "throw expressions in the address parser closure: %d" % nthrow)
 
+    # ---------------- R7: the parser hands init() only families init() knows ----------------
+    ck.rule("C19-R7", "H writer/reader agreement (address family)",
+            "Address::init builds the address on the `family == AF_INET` and `family == AF_INET6` arms; what falls through is stopped by an "
+            "assert only, which the release build compiles out (the result is then 0.0.0.0 with the default port).  So every value the "
+            "AddressParser stores into its family is one init() compares against -- a third verdict ('unspecified', 'malformed') must be "
+            "an exception, not a family", 2)
+    apc = [f_ for f_ in prog.funcs.values() if f_.base == "Pistache::AddressParser::AddressParser" and f_.blocks]
+    ini = lib.single(prog, "Pistache::Address::init")
+    handled = {b_.term.get("rconst") for b_ in ini.blocks.values() if b_.term and b_.term.get("cmp") in ("==", "!=") and "family" in (b_.term.get("cond") or "") and isinstance(b_.term.get("rconst"), int)}
+    ck.require(apc and len(handled) >= 2, "AddressParser constructor / family tests of Address::init not found (%s)" % sorted(handled))
+    nfam = 0
+    for f_ in apc:
+        for e in f_.events("assign"):
+            if not ((e.get("lhs") or {}).get("f") or "").endswith("AddressParser::family_"):
+                continue
+            nfam += 1
+            c_ = e.get("const")
+            ok_ = isinstance(c_, int) and c_ in handled
+            ck.ob("C19-R7", "AddressParser/family@%s" % e.get("l"), ok_, e.loc, f_,
+                  "stores %s, which Address::init handles" % c_ if ok_ else
+                  "stores %s into the family, which Address::init does not handle (it knows %s): with NDEBUG the text is accepted as the "
+                  "all-zero address" % ((e.get("rhs") or {}).get("t") if c_ is None else c_, sorted(handled)))
+    ck.require(nfam >= 2, "stores to AddressParser::family_: %d" % nfam)
+
